@@ -98,6 +98,10 @@ def run(ctx, rng, model=None, n_quick=10, n_thorough=120):
         if k % 3 == 2:
             xl = (-xl[1] * int(rng.integers(0, n[1])), xl[1])
         z = (int(rng.integers(0, 100)) * 4, int(rng.choice([4000, 2000, 1000])))
+        if k % 4 == 3:
+            # a sample interval that is not a whole number of milliseconds: the subvolume accessor addresses samples by
+            # the truncated times (0, 2, 5, 7, 10, ... at 2.5 ms) -- an integer axis that is not an arithmetic progression
+            z = (z[0], int(rng.choice([2500, 1500, 3500])))
         fi = synth.make(ctx.path('em.sgz'), n, bs, q, rng, il=il, xl=xl, z=z)
         V = fi.real()
         inp = {'n': n, 'bs': bs, 'q': q, 'il': il, 'xl': xl, 'z': z}
@@ -137,12 +141,18 @@ def run(ctx, rng, model=None, n_quick=10, n_thorough=120):
                     np.moveaxis(V[:, :, a:b:st], 2, 0), inp)
                 # subvolume[a:b:c, ...] by coordinates; steps are multiples of the axis increment (axis order)
                 sl, idx = [], []
+                zint = [int(z[0] + j * z[1] / 1000.0) for j in range(n[2] + 1)]
                 for ax, (o, d), m in ((0, il, n[0]), (1, xl, n[1]), (2, (z[0], z[1] // 1000), n[2])):
                     lo, hi = sorted(rng.choice(m + 1, size=2, replace=False).tolist())
                     c = int(rng.choice([1, 1, 2, 3]))
                     start = None if (lo == 0 and rng.random() < .3) else o + lo * d
                     stop = None if (hi == m and rng.random() < .3) else o + hi * d
                     step = None if (c == 1 and rng.random() < .5) else c * d
+                    if ax == 2 and z[1] % 1000:
+                        c = 1
+                        start = None if start is None else zint[lo]
+                        stop = None if stop is None else (zint[hi] if hi < m else zint[m - 1] + (zint[1] - zint[0]))
+                        step = None
                     sl.append(slice(start, stop, step))
                     idx.append(slice(lo, hi, c))
                 _eq(ctx, f'subvolume[{sl}]', lambda: f.subvolume[sl[0], sl[1], sl[2]], V[idx[0], idx[1], idx[2]],
